@@ -9,7 +9,7 @@ FAMILIES = [
     {"name": "margin", "family": "margin", "group": "margin", "driver": "drv_margin", "n_quick": 60000, "n_thorough": 400000, "seeds_thorough": 2},
 ]
 RULE = ("amm: random L1 histories (60 ops each: create/add sym+asym/remove bps+units/swap 3 routes/bucket/epoch/endblock with LPPD and "
-        "depth rewards/decommission/policy changes) on the real clp keeper; ammdir: directed histories of DESIGN 4/C01; "
+        "depth rewards/decommission/policy changes) on the real clp keeper; ammdir: directed histories of DESIGN 4/C01 (D26: two provider-distribution periods sharing a block — the first listed one is in force); "
         "after every op the full state is compared with the model and Spec.C01.solvent is judged on the implementation's dump; "
         "non-trivial = a distinct message or hook that succeeded; margin: the L1 margin histories of C13 (real margin and clp keepers), where after every message and hook the exact backing identity (clp module balance = sum of pool balance + custody, per token) is judged by Spec.C13.backingOK")
 TRUSTED_BASE = [
